@@ -262,12 +262,12 @@ func (ps *parser) typeText() string {
 	if t.kind != "id" {
 		ps.fail("expected type name, found %q", t.text)
 	}
-	if t.text == "map" {
+	if t.text == "map" || t.text == "gomap" {
 		ps.expect("[")
 		k := ps.typeText()
 		ps.expect("]")
 		v := ps.typeText()
-		b.WriteString("map[" + k + "]" + v)
+		b.WriteString(t.text + "[" + k + "]" + v)
 		return b.String()
 	}
 	b.WriteString(t.text)
@@ -469,6 +469,10 @@ func (ps *parser) primary() Expr {
 			return &EBool{true}
 		case "false":
 			return &EBool{false}
+		}
+		if (t.text == "map" || t.text == "gomap") && ps.isOp("[") {
+			ps.p--
+			return &ETypeArg{ps.typeText()}
 		}
 		if ps.isOp("(") {
 			ps.next()
